@@ -271,6 +271,13 @@ def build_program(prog, residue_check=True, desc=True):
     except Exception as ex:
         out['canon'] = 'ERR WRITE'
         out['detail'] = f'writer: {type(ex).__name__}: ' + str(ex)[:200]
+        # asking again for the bytes of a definition that could not be written fails again
+        try:
+            again = bytes(sd.as_bytes())
+            out['sem'] = {'what': f'the bytes of a definition that could not be written ({type(ex).__name__}) were handed out by a '
+                                  f'second as_bytes() call ({len(again)} bytes)', 'signature': 'c02:bytes-after-failed-write'}
+        except Exception:
+            pass
         return out
     try:
         defs = scgf.parse(raw)
@@ -359,6 +366,20 @@ def desc_check(prog, raw, d):
     if len(descs) != 1:
         return {'error': f'{len(descs)} descs'}
     desc = descs[0]
+    # the description does not depend on whether the reader keeps its scratch definition
+    try:
+        for keep in (True, False):
+            alt = SynthDesc._read_stream(io.BytesIO(raw), keep_defs=keep)[0]
+            same = (alt.name == desc.name and list(alt.control_names) == list(desc.control_names)
+                    and [(c.name, c.index, c.rate, repr(c.default_value)) for c in alt.controls]
+                    == [(c.name, c.index, c.rate, repr(c.default_value)) for c in desc.controls]
+                    and [(o.rate, o.channels, o.type.__name__) for o in alt.outputs]
+                    == [(o.rate, o.channels, o.type.__name__) for o in desc.outputs]
+                    and bool(alt.has_gate) == bool(desc.has_gate))
+            if not same:
+                return {'error': f'description read with keep_defs={keep} differs from the default read'}
+    except Exception as ex:
+        return {'error': f'reader with keep_defs raised {type(ex).__name__}: {str(ex)[:100]}'}
 
     def dv(x):
         if isinstance(x, list):
@@ -1201,6 +1222,42 @@ def mix_probe(payload):
         res.append(['bool_const', 'ok' if got == ['0', '1/2', '2', '1'] else f'Line inputs {got}, expected 0, 1/2, 2, 1 (True)'])
     except Exception as ex:
         res.append(['bool_const', f'EXC {type(ex).__name__}: {ex}'[:120]])
+    # range / exprange / unipolar / bipolar on units with unipolar (0..1) and bipolar (-1..1) output
+    from sc3.synth.ugens.oscillators import SinOsc, LFPulse, Impulse, LFSaw
+    from sc3.synth.ugens.noise import Dust as _Dust
+    for cname, mk, lohi in (('LFPulse', lambda: LFPulse.ar(3), (0, 1)), ('Impulse', lambda: Impulse.ar(3), (0, 1)),
+                            ('Dust', lambda: _Dust.ar(3), (0, 1)), ('SinOsc', lambda: SinOsc.ar(3), (-1, 1)),
+                            ('LFSaw', lambda: LFSaw.ar(3), (-1, 1))):
+        for meth in ('exprange', 'range'):
+            def gr():
+                Out.ar(0, getattr(mk(), meth)(2, 8))
+            try:
+                d = scgf.parse(bytes(SynthDef('rg', gr).as_bytes()))[0]
+                src = [i for i, u in enumerate(d['ugens']) if u['cls'] == cname][0]
+                problem = None
+                if meth == 'exprange':
+                    le = [u for u in d['ugens'] if u['cls'] == 'LinExp']
+                    got = [('src' if a == src else fmt_frac(d['consts'][k]) if a < 0 else 'u') for a, k in le[0]['ins']] if len(le) == 1 else None
+                    want = ['src', str(lohi[0]), str(lohi[1]), '2', '8']
+                    if got != want:
+                        problem = f'LinExp inputs {got}, expected {want}'
+                else:
+                    # value check: out = src mapped linearly from its output range onto [2, 8]
+                    vals = []
+                    for u in d['ugens']:
+                        ins = [F(d['consts'][k]) if a < 0 else vals[a][k] for a, k in u['ins']]
+                        if u['cls'] == cname: vals.append([F(1, 4)])
+                        elif u['cls'] == 'MulAdd': vals.append([ins[0] * ins[1] + ins[2]])
+                        elif u['cls'] == 'BinaryOpUGen' and u['sp'] in (0, 1, 2):
+                            vals.append([ins[0] + ins[1] if u['sp'] == 0 else ins[0] - ins[1] if u['sp'] == 1 else ins[0] * ins[1]])
+                        elif u['cls'] == 'Out': vals.append([]); outv = ins[1]
+                        else: vals.append([F(0)] * max(1, len(u['outs'])))
+                    want = 2 + (F(1, 4) - lohi[0]) * F(6, lohi[1] - lohi[0])
+                    if outv != want:
+                        problem = f'value {outv} for source value 1/4, expected {want}'
+                res.append([f'{cname}.{meth}', problem or 'ok'])
+            except Exception as ex:
+                res.append([f'{cname}.{meth}', f'EXC {type(ex).__name__}: {ex}'[:120]])
     # SoundIn: buses given as controls are separate one-channel inputs, consecutive numbers one multichannel input
     from sc3.synth.ugens.inout import SoundIn
     ns = {'Out': Out, 'SoundIn': SoundIn}
@@ -1246,12 +1303,19 @@ def method_probe(payload):
             if not name[0].isalpha():
                 continue
             for cand in cands(name):
-                for entry in ('method', 'builtin'):
+                for entry in ('method', 'builtin', 'builtin_num_first'):
+                    if entry == 'builtin_num_first' and arity == 'unary':
+                        continue
                     st = {}
 
                     def f():
                         x, y = WhiteNoise.ar(), Dust.ar(5)
-                        if entry == 'method':
+                        if entry == 'builtin_num_first':
+                            fn = getattr(bi, cand, None)
+                            if not callable(fn):
+                                st['na'] = True; raise LookupError
+                            r = fn(3, x)
+                        elif entry == 'method':
                             fn = getattr(x, cand, None)
                             if not callable(fn):
                                 st['na'] = True; raise LookupError
@@ -1271,5 +1335,13 @@ def method_probe(payload):
                         continue
                     cls = 'UnaryOpUGen' if arity == 'unary' else 'BinaryOpUGen'
                     ops = [(u['cls'], u['sp']) for u in d['ugens'] if u['cls'] in ('UnaryOpUGen', 'BinaryOpUGen', 'MulAdd', 'Sum3', 'Sum4')]
+                    if entry == 'builtin_num_first':
+                        # operand order: the number is the FIRST input, the unit the second
+                        bo = [u for u in d['ugens'] if u['cls'] == 'BinaryOpUGen']
+                        if len(bo) == 1:
+                            ins = bo[0]['ins']
+                            okorder = (len(ins) == 2 and ins[0][0] < 0 and d['consts'][ins[0][1]] == 3.0 and ins[1][0] >= 0)
+                            if not okorder:
+                                ops = ops + [('ORDER', [list(i) for i in ins])]
                     res.append([arity, name, cand, entry, 'OK', ops, idx])
     return res
